@@ -369,6 +369,102 @@ theorem never_removes_dir_directory (fs fs' : FS) (a : Args) (mode name : Path) 
               have : fs' = fs2 := (congrArg Prod.fst h).symm
               rw [this]; exact k1.trans k2
 
+/-- … nor any path through a whole file offer as `Receiver._go` runs it — refusal by
+    `_decide_destname`, refusal at the prompt (any answer), a connection dropped mid-way, a failing
+    rename, or success: every directory that existed before still exists afterwards.  (`goErr`, the
+    only exception handler around `_parse_offer`, has no file-system effect; `skeleton_agrees` ties
+    that to the source of `_go`.) -/
+theorem never_removes_dir_offer_file (fs fs' : FS) (a : Args) (name : Path) (dropped : Bool)
+    (r : Except Err Path) (h : offerFile fs a name dropped = (fs', r)) :
+    ∀ p, fs.isDir p = true → fs'.isDir p = true := by
+  unfold offerFile at h
+  cases hh : handleFile fs a name with
+  | mk fs1 r1 =>
+    have k1 : KeepsDirs fs fs1 := never_removes_dir_file fs fs1 a name r1 hh
+    rw [hh] at h
+    cases r1 with
+    | error e =>
+      simp only at h
+      have : fs' = fs1 := (congrArg Prod.fst h).symm
+      rw [this]; exact k1
+    | ok dt =>
+      obtain ⟨d, t⟩ := dt
+      simp only at h
+      split at h
+      · have : fs' = fs1 := (congrArg Prod.fst h).symm
+        rw [this]; exact k1
+      · cases hw : writeFile fs1 d t with
+        | mk fs2 r2 =>
+          have k2 : KeepsDirs fs1 fs2 := writeFile_keepsDirs (handleFile_ok_tmp hh) hw
+          rw [hw] at h
+          cases r2 with
+          | error e =>
+            simp only at h
+            have : fs' = fs2 := (congrArg Prod.fst h).symm
+            rw [this]; exact k1.trans k2
+          | ok u =>
+            simp only at h
+            have : fs' = fs2 := (congrArg Prod.fst h).symm
+            rw [this]; exact k1.trans k2
+
+/-- … nor any path through a whole directory offer -/
+theorem never_removes_dir_offer_directory (fs fs' : FS) (a : Args) (mode name : Path) (dropped extracted : Bool)
+    (r : Except Err Path) (h : offerDirectory fs a mode name dropped extracted = (fs', r)) :
+    ∀ p, fs.isDir p = true → fs'.isDir p = true := by
+  unfold offerDirectory at h
+  cases hh : handleDirectory fs a mode name with
+  | mk fs1 r1 =>
+    have k1 : KeepsDirs fs fs1 := never_removes_dir_directory fs fs1 a mode name r1 hh
+    rw [hh] at h
+    cases r1 with
+    | error e =>
+      simp only at h
+      have : fs' = fs1 := (congrArg Prod.fst h).symm
+      rw [this]; exact k1
+    | ok d =>
+      simp only at h
+      split at h
+      · have : fs' = fs1 := (congrArg Prod.fst h).symm
+        rw [this]; exact k1
+      · have : fs' = (if extracted = true then fs1.set d .dir else fs1) := (congrArg Prod.fst h).symm
+        rw [this]
+        split
+        · exact k1.trans (keepsDirs_set_dir fs1 d)
+        · exact k1
+
+/-- without `--output-file`, a refused or failed file offer leaves every pre-existing path exactly
+    as it was; the only thing it can leave behind is the staging file `cwd/basename.tmp` -/
+theorem failed_offer_file_no_output (fs : FS) (a : Args) (name : Path) (dropped : Bool) (h : CwdOK fs a)
+    (hno : a.outputFile = []) (fs' : FS) (e : Err) (hr : offerFile fs a name dropped = (fs', .error e)) :
+    fs' = fs ∨ (IsName (basename name) ∧ fs' = fs.set (a.cwd ++ '/' :: basename name ++ tmpSuffix) .file) := by
+  unfold offerFile at hr
+  cases hh : handleFile fs a name with
+  | mk fs1 r1 =>
+    rw [hh] at hr
+    rcases handle_file_no_output fs a name h hno fs1 r1 hh with ⟨⟨e1, he1⟩, hfs⟩ | ⟨hn, hex, hr1, hfs⟩
+    · subst he1
+      simp only at hr
+      left
+      rw [← hfs]; exact (congrArg Prod.fst hr).symm
+    · subst hr1
+      simp only at hr
+      split at hr
+      · right
+        refine ⟨hn, ?_⟩
+        rw [← hfs]; exact (congrArg Prod.fst hr).symm
+      · -- the rename cannot fail: the destination does not exist
+        exfalso
+        have hnd : fs1.isDir (a.cwd ++ '/' :: basename name) = false := by
+          rw [hfs]
+          unfold FS.pathExists at hex
+          by_cases e2 : a.cwd ++ '/' :: basename name = a.cwd ++ '/' :: basename name ++ tmpSuffix
+          · simp only [FS.isDir, FS.set]
+            rw [if_pos e2]; rfl
+          · simp only [FS.isDir, FS.set]
+            rw [if_neg e2]
+            cases hk : fs.kind (a.cwd ++ '/' :: basename name) <;> simp_all
+        simp [writeFile, hnd] at hr
+
 /-! ### archives -/
 
 /-- **extract_inside.**  `_extract_file`'s guard accepts a member only if
